@@ -17,6 +17,7 @@ RULE = ("generated projects of 2..6 files: entry files with `out` statements, sh
         "file: <path>`; artifact bytes) must equal its outcome alone; the exit status must be 1 iff some file fails "
         "alone. distinct = distinct (project, permutation); non-trivial = a batch of >= 2 files containing a failing "
         "file, a shared library or a file that is both built and imported.")
+RULE += (" " + 'Also: the shared library has a relative import of its own and files of the same relative name with other types sit next to the importers (one compatible, one not); a different library under the same relative name one directory down; the same base name in two directories.')
 
 KINDS = ["entry", "entry-imports-lib", "entry-imports-local-lib", "entry-imports-local-lib", "entry-imports-entry", "lib-no-out", "syntax-error", "type-error", "runtime-error",
          "failing-out", "entry-yaml", "include-user"]
